@@ -104,6 +104,12 @@ EXTRA = {
     "C18": "Grain-growth runs also start from data-loaded distributions and after an earlier run followed by reset(); volume is judged against the volume the run starts from.",
     "C20": "Clause surrogate_multi: MulticomponentSurrogate over an analytic ternary backend (driving force, diffusivity, curvature factors; growth and impingement derived from them); both surrogate clauses train on broadcast grids and point-wise lists, the binary one also on temperature x Gibbs-Thomson grids.",
 }
+for _p, _c in (("C09", "hashtable"), ("C14", "cnt and cache"), ("C15", "setter_history and rcrit"), ("C17", "bounds"), ("C18", "strength")):
+    EXTRA[_p] = EXTRA.get(_p, "") + " Thorough tier: the %s clause(s) are additionally driven by atheris/libFuzzer (coverage-guided) through Hypothesis' fuzz_one_input." % _c
+EXTRA["C11"] = "The phase-order clause calibrates its tolerance per case against a run whose alloy content is perturbed by 2 ulp (summation order over phases changes rounding); needle/plate phases may take their aspect ratio from an elastic strain energy."
+EXTRA["C16"] = "The precipitate's own rotation and the named stiffness setters (setElasticConstants, setModuli and the precipitate versions) are exercised next to the tensor setters."
+EXTRA["C01"] = "Scenarios include rarely used model options (setBetaBinary(2), effective diffusion distance off, theta, parent phases) and needle/plate phases whose aspect ratio is computed from an elastic strain energy."
+EXTRA["C03"] = EXTRA["C01"]
 NOTE_OVERRIDE = {
     "C20": "toy/stub backends (the file format and the surrogate plumbing do not depend on the database); training sets are generated non-degenerate (distinct, non-collinear points)",
 }
